@@ -154,14 +154,14 @@ def check_string(unit: str, text: str) -> str:
         for c in text:
             v1 = _verdict(unit, c)
             if v1 is not None:
-                fail(f"{unit}:{v1}:char={_char_class(c)}", "text=%r emitted %r", text, STRING_UNITS[unit][0](text))
+                fail(f"{unit}:{v1}:char={_char_class(c)}", "text=%r emitted %r", text, lambda: STRING_UNITS[unit][0](text))
         for i in range(len(text) - 1):
             pair = text[i:i + 2]
             v2 = _verdict(unit, pair)
             if v2 is not None:
                 fail(f"{unit}:{v2}:pair={_char_class(pair[0])}+{_char_class(pair[1])}", "text=%r emitted %r", text,
-                     STRING_UNITS[unit][0](text))
-        fail(f"{unit}:{v}:longer-context", "text=%r emitted %r", text, STRING_UNITS[unit][0](text))
+                     lambda: STRING_UNITS[unit][0](text))
+        fail(f"{unit}:{v}:longer-context", "text=%r emitted %r", text, lambda: STRING_UNITS[unit][0](text))
     return "ok"
 
 
